@@ -5,7 +5,7 @@
    command list.  M2 (overlap, Sim/Overlap*.v): theorems over the two-thread
    transition system, for every interleaving of its steps. *)
 From Coq Require Import ZArith List Bool.
-From PV Require Import Sim.Model Sim.Lifecycle Sim.LifecycleProofs Sim.Overlap Sim.OverlapProofs.
+From PV Require Import Sim.Model Sim.Lifecycle Sim.LifecycleProofs Sim.LifecycleWarmup Sim.Overlap Sim.OverlapProofs.
 Import ListNotations.
 Local Open Scope Z_scope.
 
@@ -39,13 +39,40 @@ Print Assumptions C04_refused_notifies_nobody.
    once, outside START..STOP, and last); it also checks after every command
    that the monitor is quiet, that the state is one of the four quiescent
    combinations and that state and monitor agree.
-   Not covered by the monitor: that WARMUP *is* emitted when the run passes the
-   warm-up time (a liveness clause; checked on the implementation by the
-   harness oracle only). ---- *)
+   That WARMUP *is* emitted when the run reaches the warm-up time is
+   C04_warmup_when_reached below. ---- *)
 Theorem C04_stream_wf :
   forall fuel p st cs, lifecycle_ok fuel p (init_sim st) mon_dead cs = true.
 Proof. exact stream_wf. Qed.
 Print Assumptions C04_stream_wf.
+
+(* the warm-up notification is emitted when the run reaches the warm-up time:
+   after any command list without end_replication (which discards the pending
+   warm-up event by design), if the warm-up time is not before the start of
+   the replication and the clock has passed it, the monitor has seen WARMUP in
+   this replication - by C04_stream_wf exactly once, with the warm-up time as
+   timestamp, between START and STOP *)
+Theorem C04_warmup_when_reached :
+  forall fuel p st cs s m r,
+    forallb (fun c => negb (is_endrepl c)) cs = true ->
+    lifecycle_run fuel p (init_sim st) mon_dead cs = Some (s, m) ->
+    rs_initialized (rs s) = true -> rep s = Some r ->
+    r_start r <= r_warm r -> r_warm r < clock s ->
+    m_warm m = true.
+Proof. exact warmup_when_reached. Qed.
+Print Assumptions C04_warmup_when_reached.
+
+Example C04_warmup_hypotheses_satisfiable :
+  exists s m,
+    lifecycle_run 100 [[ASched (MAbs (TNum 4)) 5 1]; []] (init_sim SWarnPause) mon_dead
+                  [CInit (mkRepl 0 2 16); CStep; CRunUpTo (TNum 8)] = Some (s, m)
+    /\ rs_initialized (rs s) = true /\ rep s = Some (mkRepl 0 2 16) /\ 2 < clock s /\ m_warm m = true.
+Proof.
+  destruct (lifecycle_run 100 [[ASched (MAbs (TNum 4)) 5 1]; []] (init_sim SWarnPause) mon_dead
+                          [CInit (mkRepl 0 2 16); CStep; CRunUpTo (TNum 8)]) as [[s m]|] eqn:E;
+    [|vm_compute in E; discriminate].
+  exists s, m. split; [reflexivity|]. vm_compute in E. injection E as <- <-. vm_compute. auto.
+Qed.
 
 (* TIME_CHANGED carries the time of the event about to run: one pass of the
    run loop notifies TIME_CHANGED(t) exactly when t, the time of the first
